@@ -1435,6 +1435,93 @@ func runScenario(run *vlib.Run, i int) {
 	}
 }
 
+// pinned runs the fixed reproducers of the recorded findings; each is an
+// ordinary regression case once the defect is repaired.
+func pinned(run *vlib.Run) {
+	newEnv := func() (*fakesql.Engine, *sqlgen.DB, *sqlgen.DB, func()) {
+		eng := fakesql.New("", "verifdb")
+		schema := newSchema()
+		if err := eng.CreateSchemaTables(schema); err != nil {
+			run.Broken("pinned: " + err.Error())
+		}
+		conn := eng.Open()
+		base := sqlgen.NewDB(conn, schema)
+		limited, err := base.WithShardLimit(sqlgen.Filter{"org_id": int64(1)})
+		if err != nil {
+			run.Broken("pinned: " + err.Error())
+		}
+		return eng, base, limited, func() { conn.Close(); eng.Dispose() }
+	}
+	bg := context.Background()
+	// 1. livedb-cache-skips-limit-check
+	{
+		eng, base, limited, done := newEnv()
+		base.InsertRows(fakesql.WithTag(bg, "setup"), []*Device{{Id: 1, OrgId: 1, Region: "us"}, {Id: 2, OrgId: 2, Region: "us"}}, 10)
+		ldbU, ldbL := livesql.NewLiveDB(base), livesql.NewLiveDB(limited)
+		var viaU, viaL []*Device
+		var errU, errL error
+		fin := make(chan struct{})
+		var once sync.Once
+		rr := reactive.NewRerunner(bg, func(ctx context.Context) (interface{}, error) {
+			errU = ldbU.Query(fakesql.WithTag(ctx, "unlimited"), &viaU, sqlgen.Filter{"org_id": int64(2)}, nil)
+			errL = ldbL.Query(fakesql.WithTag(ctx, "limited"), &viaL, sqlgen.Filter{"org_id": int64(2)}, nil)
+			once.Do(func() { close(fin) })
+			return nil, nil
+		}, 0, false)
+		select {
+		case <-fin:
+			run.Case("pinned|livedb-cache", true)
+			if errU != nil {
+				run.Broken("pinned livedb-cache: unlimited query failed: " + errU.Error())
+			} else if errL == nil {
+				var rows []string
+				for _, d := range viaL {
+					rows = append(rows, derefShow(d))
+				}
+				run.Violation(-1, "livedb-cache-skips-limit-check", map[string]interface{}{
+					"what":     "pinned reproducer: LiveDB of a handle limited to org_id=int64(1) answered Filter{org_id: int64(2)} with a nil error from the rerunner cache filled through an unlimited LiveDB",
+					"returned": rows, "statements": summaries(eng.Log()),
+				})
+			}
+		case <-time.After(60 * time.Second):
+			run.Inconclusive("pinned livedb-cache: computation did not finish")
+		}
+		rr.Stop()
+		done()
+	}
+	// 2. chunked-write-before-check
+	{
+		eng, _, limited, done := newEnv()
+		mark := eng.Mark("pinned-chunked")
+		err := limited.InsertRows(fakesql.WithTag(bg, "call"), []*Device{{Id: 1, OrgId: 1}, {Id: 2, OrgId: 1}, {Id: 3, OrgId: 2}}, 2)
+		run.Case("pinned|chunked-write", true)
+		var reached []*fakesql.Stmt
+		for _, st := range eng.LogSince(mark) {
+			if st.Kind != fakesql.SBegin && st.Kind != fakesql.SRollback {
+				reached = append(reached, st)
+			}
+		}
+		if err == nil {
+			run.Violation(-1, "", map[string]interface{}{"what": "pinned reproducer: InsertRows with a row of org 2 on a handle limited to org 1 returned nil", "statements": summaries(reached)})
+		} else if len(reached) > 0 {
+			run.Violation(-1, "chunked-write-before-check", map[string]interface{}{
+				"what":       "pinned reproducer: InsertRows([org1, org1, org2], chunkSize 2) on a handle limited to org_id=int64(1) returned an error only after sending the first chunk to the database",
+				"error":      err.Error(),
+				"statements": summaries(eng.LogSince(mark)),
+			})
+		}
+		done()
+	}
+}
+
+func summaries(stmts []*fakesql.Stmt) []string {
+	var out []string
+	for _, st := range stmts {
+		out = append(out, st.Summary())
+	}
+	return out
+}
+
 func TestCheck(t *testing.T) {
 	run := vlib.Start(t, "C12", "exploration")
 	defer run.Finish()
@@ -1449,6 +1536,7 @@ func TestCheck(t *testing.T) {
 	run.Assume("a filter value denotes a column value by Go kind after pointer dereference (ints by numeric value, strings/[]byte by bytes); a string such as \"1\" does not denote the integer 1")
 	run.Assume("complying calls are allowed to fail (thunder compares Go values with ==, so another Go type of the same value is rejected); only statements and non-complying calls are judged")
 	reactive.WriteThenReadDelay = 0
+	pinned(run)
 	n := run.N(1500, 150000)
 	run.Each(n, 8, func(i int) {
 		runScenario(run, i)
